@@ -102,3 +102,11 @@ T("future-flip", ["C05"], CONS, "    if block_header.summary.timestamp > current
 T("evidence-local-rename", ["C05", "C06"], CONS,
   "    reconstructed_evidence = construct_pow_evidence(coinstate, block.header.summary, block.height, block.transactions)\n    if block.header.pow_evidence != reconstructed_evidence:",
   "    if construct_pow_evidence(coinstate, block.summary, block.header.summary.height, block.transactions) != block.pow_evidence:")
+
+T("struct-to-bytes", ["C07", "C06", "C18"], DT, "        f.write(struct.pack(b\">I\", self.index))", "        f.write(self.index.to_bytes(4, 'big'))")
+T("struct-network-order", ["C07", "C18"], DT, "        (index,) = struct.unpack(b\">I\", safe_read(f, 4))\n        return cls(hash, index)", "        (index,) = struct.unpack(b\"!I\", safe_read(f, 4))\n        return cls(hash, index)")
+T("reader-kwargs", ["C07", "C06"], DT, "        return cls(summary_hash, chain_sample, block_hash)", "        return cls(summary_hash=summary_hash, block_hash=block_hash, chain_sample=chain_sample)")
+T("reader-rename-locals", ["C07", "C06", "C18"], DT, "        hash = safe_read(f, 32)\n        (index,) = struct.unpack(b\">I\", safe_read(f, 4))\n        return cls(hash, index)",
+  "        h = safe_read(f, 32)\n        (idx,) = struct.unpack(b\">I\", safe_read(f, 4))\n        return cls(h, idx)")
+T("from-bytes-reader", ["C07", "C18"], DT, "        (value,) = struct.unpack(b\">Q\", safe_read(f, 8))\n", "        value = int.from_bytes(safe_read(f, 8), 'big')\n")
+T("const-tag-literal", ["C07", "C18"], SIG, "        f.write(TYPE_COINBASE_DATA)", "        f.write(b'\\x01')")
